@@ -14,7 +14,7 @@ for f in sorted(glob.glob('/verif/seeded/*/meta.json')):
     for c in m.get('detected_by') or []:
         first = m['checks'][c]['first'][:100].replace('|', '\\|'); break
     hist = (m.get('history') or '').replace('|', '\\|')
-    if re.search(r'First run[^.]*?(missed|did not detect)|^Evaluated after strengthening|it was missed|first pass: missed', hist):
+    if m['first_run_missed'] if 'first_run_missed' in m else re.search(r'First run[^.]*?(missed|did not detect)|^Evaluated after strengthening|it was missed|first pass: missed', hist):
         first_miss += 1
     assert m['tests_with_change'].startswith('131 passed'), f
     assert m['demo_with_change']['exit'] == 1 and m['demo_without_change']['exit'] == 0, f
